@@ -292,11 +292,33 @@ func (r *RegionScatterer) scatterRegion(region *core.RegionInfo, group string) *
 	targetPeers := make(map[uint64]*metapb.Peer)
 	selectedStores := make(map[uint64]struct{})
 	scatterWithSameEngine := func(peers map[uint64]*metapb.Peer, context engineContext) {
+		// peers of the region that have not made their selection yet, by store
+		unprocessed := make(map[uint64]*metapb.Peer, len(peers))
 		for _, peer := range peers {
-			candidates := r.selectCandidates(region, peer.GetStoreId(), selectedStores, context)
-			newPeer := r.selectStore(group, peer, peer.GetStoreId(), candidates, context)
-			targetPeers[newPeer.GetStoreId()] = newPeer
-			selectedStores[newPeer.GetStoreId()] = struct{}{}
+			unprocessed[peer.GetStoreId()] = peer
+		}
+		for _, peer := range peers {
+			if _, ok := unprocessed[peer.GetStoreId()]; !ok {
+				// The store of this peer was selected before: the peer stays where it is.
+				continue
+			}
+			delete(unprocessed, peer.GetStoreId())
+			for {
+				candidates := r.selectCandidates(region, peer.GetStoreId(), selectedStores, context)
+				newPeer := r.selectStore(group, peer, peer.GetStoreId(), candidates, context)
+				if other, ok := unprocessed[newPeer.GetStoreId()]; ok {
+					// The selected store holds another peer of the region which has not been
+					// processed yet. Taking the store would leave the region with one peer
+					// less, so that peer stays and this one selects again.
+					delete(unprocessed, other.GetStoreId())
+					targetPeers[other.GetStoreId()] = other
+					selectedStores[other.GetStoreId()] = struct{}{}
+					continue
+				}
+				targetPeers[newPeer.GetStoreId()] = newPeer
+				selectedStores[newPeer.GetStoreId()] = struct{}{}
+				break
+			}
 		}
 	}
 
